@@ -48,8 +48,9 @@ class Number(Element):
     ):
         super().__init__(*args, **kwargs)
         self.format = format
-        self.min = min
-        self.max = max
+        # min == max means "no range" in INDI; both attributes are mandatory on the wire
+        self.min = 0 if min is None else min
+        self.max = 0 if max is None else max
         self.step = step
 
 
